@@ -11,6 +11,8 @@ Set Default Timeout 200.
 
 Lemma meas_at_ok : forallb check_meas_at meas_fns = true. Proof. vm_compute. reflexivity. Qed.
 Lemma reset_at_ok : forallb check_reset_at reset_fns = true. Proof. vm_compute. reflexivity. Qed.
+Lemma meas_noisy_at_ok : forallb check_meas_noisy_at meas_fns = true. Proof. vm_compute. reflexivity. Qed.
+Lemma noise1_at_ok : forallb check_noise1_at noise1_fns = true. Proof. vm_compute. reflexivity. Qed.
 
 Section KThm.
   Variable R : Type.
@@ -133,35 +135,39 @@ Section KThm.
   Proof. unfold entry, mat_at. destruct c; reflexivity. Qed.
   Lemma entry_m2_cols m r c : ev (entry (m2_cols m) (b2n r) (b2n c)) = m2f_of m r c.
   Proof. destruct m as [[[m00 m01] m10] m11]. destruct r, c; reflexivity. Qed.
-  Definition window (b : bits) (nr ns : nat) : bits := mkB [bit (brec b) nr] [bit (bsil b) ns] [false; false].
-  Lemma window_in b nr ns : In (window b nr ns) all_bits.
-  Proof. unfold window. destruct (bit (brec b) nr), (bit (bsil b) ns); cbn; tauto. Qed.
+  Definition window (b : bits) (nr ns ne : nat) : bits :=
+    mkB [bit (brec b) nr] [bit (bsil b) ns] [bit (berr b) ne; bit (berr b) (1 + ne); bit (berr b) (2 + ne); bit (berr b) (3 + ne)].
+  Lemma window_in b nr ns ne : In (window b nr ns ne) all_bits6.
+  Proof.
+    unfold window. destruct (bit (brec b) nr), (bit (bsil b) ns), (bit (berr b) ne), (bit (berr b) (1 + ne)), (bit (berr b) (2 + ne)), (bit (berr b) (3 + ne));
+      vm_compute; tauto.
+  Qed.
 
   (* ---- a checked one-lane fragment, anywhere ---- *)
   Theorem frag_anywhere ops (S : bits -> m2) ex col :
     forallb (one_lane_op 8) ops = true -> forallb quiet_op ops = true ->
-    agree_all (map (fun b => (mat_at ex col b ops, m2_cols (S b))) all_bits) = true ->
+    agree_all (map (fun b => (mat_at ex col b ops, m2_cols (S b))) all_bits6) = true ->
     flags_const ex col ops = true ->
     let ref := run 1 KrausCheck.b00 ops (start_state ex col 0) in
-    let c' := hd CXc (colour_ ref) in let dnr := nrec ref in let dns := nsil ref in
+    let c' := hd CXc (colour_ ref) in let dnr := nrec ref in let dns := nsil ref in let dne := nerr ref in
     exists (k : Z),
       forall b (t : kst) q, kex R t q = ex -> kcol R t q = col ->
         let t' := krun b (map (at_lane q) ops) t in
         (exists e, In e clifford_phases /\
-           kfinal t' = scale (E (xv e) * ev (psqrt2pow k)) (aapp1 (m2f_of (S (window b (knrec R t) (knsil R t)))) q (kfinal t))) /\
+           kfinal t' = scale (E (xv e) * ev (psqrt2pow k)) (aapp1 (m2f_of (S (window b (knrec R t) (knsil R t) (knerr R t)))) q (kfinal t))) /\
         kex R t' = fupd (kex R t) q true /\ kcol R t' = fupd (kcol R t) q c' /\
-        knrec R t' = (knrec R t + dnr)%nat /\ knsil R t' = (knsil R t + dns)%nat /\ knerr R t' = knerr R t /\ kncorr R t' = kncorr R t.
+        knrec R t' = (knrec R t + dnr)%nat /\ knsil R t' = (knsil R t + dns)%nat /\ knerr R t' = (knerr R t + dne)%nat /\ kncorr R t' = kncorr R t.
   Proof.
-    intros Hone Hq Hag Hfl ref0 c' dnr dns. subst c' dnr dns ref0.
+    intros Hone Hq Hag Hfl ref0 c' dnr dns dne. subst c' dnr dns dne ref0.
     destruct (agree_all_sound R rO rI radd rmul rsub ropp Rth E E_add E_0 E_1 half half_2 ta tb tc _ Hag) as (k & Hk).
     unfold flags_const in Hfl. set (ref := run 1 b00 ops (start_state ex col 0)) in *.
     rewrite !andb_true_iff in Hfl. destruct Hfl as [[[[[Hall Hex1] Hnr1] Hns1] Hne0] Hnc0].
-    apply Nat.leb_le in Hnr1, Hns1. apply Nat.eqb_eq in Hne0, Hnc0.
+    apply Nat.leb_le in Hnr1, Hns1, Hne0. apply Nat.eqb_eq in Hnc0.
     destruct (exists_ ref) as [|[|] [|]] eqn:Eref; try discriminate Hex1. clear Hex1.
     exists k.
     intros b t q Hex Hcol t'.
-    set (w := window b (knrec R t) (knsil R t)).
-    pose proof (window_in b (knrec R t) (knsil R t)) as Hw. fold w in Hw.
+    set (w := window b (knrec R t) (knsil R t) (knerr R t)).
+    pose proof (window_in b (knrec R t) (knsil R t) (knerr R t)) as Hw. fold w in Hw.
     (* the canonical run, with the window bits, from counters 0: its flags are those of the reference run *)
     destruct (dense_local ops ex col w false Hone) as (Hent0 & Dex & Dcol & Dnr & Dns & Dne & Dnc).
     rewrite forallb_forall in Hall. specialize (Hall w Hw). cbn [forallb] in Hall. rewrite !andb_true_iff in Hall. destruct Hall as (Hf0 & _ & _).
@@ -172,19 +178,21 @@ Section KThm.
     assert (Hlcol : lcol R L' = hd CXc (colour_ ref)) by (rewrite <- F2, Dcol; reflexivity).
     assert (Hlnr : lnr R L' = nrec ref) by (rewrite <- Dnr; exact F3).
     assert (Hlns : lns R L' = nsil ref) by (rewrite <- Dns; exact F4).
-    assert (Hlne : lne R L' = 0%nat) by (rewrite <- Dne, F5; exact Hne0).
+    assert (Hlne : lne R L' = nerr ref) by (rewrite <- Dne; exact F5).
     assert (Hlnc : lnc R L' = 0%nat) by (rewrite <- Dnc, F6; exact Hnc0).
     (* the actual run at lane q of t, and its similarity with the canonical one *)
     pose proof (local_run R rO rI radd rmul rsub ropp Rth E half ta tb tc q b ops t Hone) as Hp. fold t' in Hp.
     set (L := lrun b ops (linit R rO rI t q)) in *.
     assert (Hsim : lsim R (knrec R t) (knsil R t) (knerr R t) (kncorr R t) L L').
     { unfold L, L', KrausLocal.lrun.
-      apply (quiet_run_sim R rO rI radd rmul ropp E half ta tb tc (knrec R t) (knsil R t) (knerr R t) (kncorr R t) 7 b w 1 1 ops Hq).
+      apply (quiet_run_sim R rO rI radd rmul ropp E half ta tb tc (knrec R t) (knsil R t) (knerr R t) (kncorr R t) 7 b w 1 1 4 ops Hq).
       - intros i Hi. assert (i = 0)%nat by lia. subst i. reflexivity.
       - intros i Hi. assert (i = 0)%nat by lia. subst i. reflexivity.
+      - intros i Hi. destruct i as [|[|[|[|i]]]]; try lia; reflexivity.
       - unfold lsim, linit, l0. cbn [lk lM lex lcol lnr lns lne lnc]. rewrite Hex, Hcol. repeat split; reflexivity.
       - fold (lrun w ops (l0 ex col)). fold L'. rewrite Hlnr. exact Hnr1.
-      - fold (lrun w ops (l0 ex col)). fold L'. rewrite Hlns. exact Hns1. }
+      - fold (lrun w ops (l0 ex col)). fold L'. rewrite Hlns. exact Hns1.
+      - fold (lrun w ops (l0 ex col)). fold L'. rewrite Hlne. lia. }
     destruct Hsim as (Sk & SM & Sex & Scol & Snr & Sns & Sne & Snc).
     destruct Hp as (Ppsi & Pk & Pex & Pcol & Pnr & Pns & Pne & Pnc & Pfr).
     split; [|repeat split].
